@@ -12,8 +12,8 @@ Clause(t) == LET c == Cases[t] IN
              ELSE IF ~WFV(c.tx, c.y) THEN "rebuilt-shape"
              ELSE IF c.y # c.x THEN "rebuilt"
              ELSE ""
-TraceInit == cls = <<>> /\ tid \in 1..Len(Cases)
-TraceNext == UNCHANGED <<cls, tid>>
-TraceSpec == TraceInit /\ [][TraceNext]_<<cls, tid>>
+TraceInit == cls = <<>> /\ ctx = "any" /\ tid \in 1..Len(Cases)
+TraceNext == UNCHANGED <<cls, ctx, tid>>
+TraceSpec == TraceInit /\ [][TraceNext]_<<cls, ctx, tid>>
 Verdict == PrintT(<<"VERDICT", tid, Clause(tid)>>)
 =============================================================================
